@@ -34,18 +34,6 @@ no frame is handed out twice); a `started` event begins a new run, whose ids are
 previous run's. -/
 def IdsIncrease (l : List Ev) : Prop := okFrom none l
 
-/-- Every published id is exactly the number of frames generated so far in the run (C: `id =
-generated - 1`), every delivered id is a published one: at least `0` in C and at most the number of
-frames generated so far minus one. -/
-def Counts : List Ev → Prop
-  | [] => True
-  | .published id g :: t => id = g ∧ Counts t
-  | .delivered id g :: t => 1 ≤ id ∧ id ≤ g ∧ Counts t
-  | .started :: t => Counts t
-  | .res _ _ _ :: t => Counts t
-  | .utrig :: t => Counts t
-  | .generated _ :: t => Counts t
-
 /-- frames delivered in the current run -/
 def cntD : List Ev → Nat
   | [] => 0
@@ -75,6 +63,19 @@ def cntG : List Ev → Nat
   | .delivered _ _ :: t => cntG t
   | .utrig :: t => cntG t
   | .published _ _ :: t => cntG t
+
+/-- Every published id is exactly the number of frames generated so far in the run (in C:
+`id = generated - 1`; the number is both the streamer's count `g` recorded with the event and the
+number of `generated` events of the run that precede it in the log), and every delivered id is a
+published one: at least `0` in C and at most the number of frames generated so far minus one. -/
+def Counts : List Ev → Prop
+  | [] => True
+  | .published id g :: t => id = g ∧ g = cntG t ∧ Counts t
+  | .delivered id g :: t => 1 ≤ id ∧ id ≤ g ∧ g = cntG t ∧ Counts t
+  | .started :: t => Counts t
+  | .res _ _ _ :: t => Counts t
+  | .utrig :: t => Counts t
+  | .generated _ :: t => Counts t
 
 /-- a bound above the latest delivered id of the run is a valid bound for the whole log -/
 theorem okFrom_of_lastOf_lt {l : List Ev} {x : Nat} (h : okFrom none l) (hx : lastOf l < x) :
